@@ -158,7 +158,10 @@ def get_gls(
                     for story in stories:
                         new_stories.update(story)
 
-                    if s1 + sM == sL:
+                    if sM == sL:
+                        # if all evaluate to -1, combine them as missing
+                        new_nodes.append((-1, new_stories))
+                    elif s1 + sM == sL:
                         # combine states if they evaluate to 1
                         new_nodes.append((1, new_stories))
                         log.debug("...... 1 nodes: %s" % (new_nodes[-1],))
@@ -206,6 +209,8 @@ def get_gls(
                         # loss-models are encountered
                         elif state == 1:
                             minLoss[w].append(j)
+                        else:
+                            good_nodes.append(new_nodes[j])
 
                 # append lowest weights in gains to the list
                 if minGains:
